@@ -171,6 +171,19 @@ def run_block(block, knobs, faults=(), drive='mono', text=None):
                 solver.MaxTime = int(knobs['maxtime_attr'])
             solver.AddFunction('chaos', chaos)
             solver.AddFunction('tick', tick)
+
+            def neighbour():
+                # another party in the same process: its own solver, its own functions under the same names
+                other = EquationSolver()
+                other.AddFunction('chaos', lambda x=0.0, *a: -x - 1000.0)
+                other.AddFunction('tick', lambda x=0.0, *a: 0.5 * x + 1000.0)
+                try:
+                    other.ParseString('nz = tick(ny)\nny = 1.0\nMaxTime = 1')
+                    other.SolveEquation()
+                except Exception:   # noqa
+                    pass
+            if knobs.get('neighbour') == 'before_parse':
+                neighbour()
             if knobs.get('prelude') is not None:
                 # the solver has a history: another block was parsed and solved on it before
                 rec['phase'] = 'prelude'
@@ -199,6 +212,10 @@ def run_block(block, knobs, faults=(), drive='mono', text=None):
                 tick.per_period = {}
             rec['phase'] = 'parse'
             solver.ParseString(text)
+            if knobs.get('maxtime_attr_late') is not None:
+                # the solver-level horizon is touched after the block was parsed (a front end re-using a settings
+                # object): whichever horizon the implementation takes, it must be one horizon for every series
+                solver.MaxTime = int(knobs['maxtime_attr_late'])
             if knobs.get('cap') is not None:
                 solver.MaxIterations = int(knobs['cap'])
             if knobs.get('tol_param') is not None:
@@ -219,6 +236,8 @@ def run_block(block, knobs, faults=(), drive='mono', text=None):
                 'exo': [v for v, _ in solver.Parser.Exogenous],
                 'maxtime': solver.Parser.MaxTime,
             }
+            if knobs.get('neighbour') == 'after_parse':
+                neighbour()
             if drive == 'mono':
                 rec['phase'] = 'solve'
                 solver.SolveEquation()
@@ -432,6 +451,10 @@ def check_c10(block, knobs, rec, drive, prop='C10', misuse=None):
     """Exogenous paths, initial conditions and horizon honoured verbatim."""
     out = []
     T = horizon_of(block, knobs)
+    late = knobs.get('maxtime_attr_late')
+    if late is not None and rec['outcome'] == 'ok' and rec['series'] and \
+            all(len(v) == int(late) + 1 for v in rec['series'].values()):
+        T = int(late)       # a consistent run over the horizon set last is as good as one over the parsed horizon
     if misuse:
         # the run must have been rejected, and no numbers exist
         if rec['outcome'] == 'ok':
